@@ -130,7 +130,7 @@ theorem schedule_sfr {s s' : State} {sol : Solution} {o : Out}
 
 theorem QInv.queueOk {U : List TaskId} {pend : List TaskId} {s : State} (h : QInv U none pend s) : QueueOk s := by
   intro i q hq id hid task ht
-  obtain ⟨_, g2, g3⟩ := h.qg i q hq id hid
+  obtain ⟨_, g2, g3, _⟩ := h.qg i q hq id hid
   refine ⟨g2 task ht, fun d dt hd hc => ?_⟩
   have := g3 dt (findTask_some_mem hd) hc
   cases this
@@ -140,7 +140,7 @@ theorem QInv.queueOkD {U : List TaskId} {pend : List TaskId} {s : State} (h : QI
   intro p hp id hid
   obtain ⟨q, i⟩ := p
   have hq : s.queues[i]? = some q := List.mem_zipIdx_iff_getElem?.mp hp
-  obtain ⟨_, g2, g3⟩ := h.qg i q hq id hid
+  obtain ⟨_, g2, g3, _⟩ := h.qg i q hq id hid
   refine ⟨g2, fun dt hdt hc => ?_⟩
   have := g3 dt hdt hc
   cases this
@@ -234,8 +234,14 @@ theorem schedule_q {U : List TaskId} {s s' : State} {sol : Solution} {o : Out} (
       omega
   · intro i q' hq' x hx
     obtain ⟨q, hq0, hx0⟩ := trk.qsub i q' hq' x hx
-    obtain ⟨g1, g2, g3⟩ := hq.qg i q hq0 x hx0
-    refine ⟨g1, ?_, ?_⟩
+    obtain ⟨g1, g2, g3, g4⟩ := hq.qg i q hq0 x hx0
+    refine ⟨g1, ?_, ?_, ?_⟩
+    rotate_left 2
+    · intro t' ht'
+      obtain ⟨t, hf, _, _, e⟩ := hpre x t' ht'
+      rcases e with e | e
+      · rw [e]; exact g4 t hf
+      · exact slack_of_not_waiting e.1
     · intro t' ht'
       obtain ⟨t, hf, e, _⟩ := hpre x t' ht'
       rw [e]; exact g2 t hf
